@@ -64,7 +64,7 @@ def _convert(lines):
                 'sch': r['sch'], 'thr': list(r['thr']), 'max': r['max'],
                 'st': sorted(started), 'en': sorted(ended), 'rt': [[k, rets[k]] for k in sorted(rets)],
                 'pf': [sorted(pflags.get(p, set())) for p in range(1, NPIPES[0] + 1)], 'pc': [list(pcnt.get(p, [0, 0, 0])) for p in range(1, NPIPES[0] + 1)],
-                'obs': [[k, a, b] for k, a, b in r['obs']], 'fin': bool(r['fin']), 'tb': r['op'] in ('wait', 'join') or (r['op'] == 'park' and r['loc'].startswith('job_queue')),
+                'obs': [[k, a, b] for k, a, b in r['obs']], 'fin': bool(r['fin']), 'tb': r['op'] == 'wait' or (r['op'] == 'join' and r.get('waited', True)) or (r['op'] == 'park' and r['loc'].startswith('job_queue') and r.get('waited', True)),
             })
     return out
 
